@@ -124,10 +124,23 @@ def static_inventory(repo=REPO):
                     for nn in ast.walk(t):
                         if isinstance(nn, ast.Name) and isinstance(nn.ctx, ast.Store) and nn.id not in globals_decl:
                             local.add(nn.id)
+            # local aliases of a shared object (`x = SHARED`, possibly inside a conditional expression): what is done to x is done to SHARED
+            alias = {}
+            for n in ast.walk(func):
+                if isinstance(n, ast.Assign) and len(n.targets) == 1 and isinstance(n.targets[0], ast.Name):
+                    srcs = [v for v in ast.walk(n.value) if isinstance(v, ast.Name) and v.id in visible and v.id not in local]
+                    direct = isinstance(n.value, ast.Name) or (isinstance(n.value, ast.IfExp) and any(isinstance(b, ast.Name) and b.id in visible for b in (n.value.body, n.value.orelse)))
+                    if srcs and direct:
+                        alias[n.targets[0].id] = visible[srcs[0].id]
             for n in ast.walk(func):
                 if isinstance(n, ast.Name) and n.id in visible and n.id not in local:
                     uses[visible[n.id]].append((f'{mod.split(".")[-1]}.{func.name}', _usage_kind(func, n)))
                     inv['_lines'].setdefault(f'{mod.split(".")[-1]}.{func.name}', set()).add(n.lineno)
+                elif isinstance(n, ast.Name) and n.id in alias and isinstance(n.ctx, ast.Load):
+                    kind = _usage_kind(func, n)
+                    if kind != 'read':
+                        uses[alias[n.id]].append((f'{mod.split(".")[-1]}.{func.name}', kind + ' via alias'))
+                        inv['_lines'].setdefault(f'{mod.split(".")[-1]}.{func.name}', set()).add(n.lineno)
         for cls in [n for n in tree.body if isinstance(n, ast.ClassDef)]:
             for func in [n for n in cls.body if isinstance(n, ast.FunctionDef) and n.name != '__init__' and not n.name.startswith('_add')]:
                 for n in ast.walk(func):
@@ -269,8 +282,12 @@ def api_calls(rng, n, a5=None):
             c = random_valid_id(rng, 0, 29)
             calls.append(('cell_to_parent', (c,)))
         elif k == 8:
-            c = random_valid_id(rng, 1, 28)
-            calls.append(('cell_to_children', (c,)))
+            if rng.random() < 0.25:
+                # the world cell (the only id that fans out over the origin table)
+                calls.append(rng.choice([('cell_to_children', (0, rng.randint(0, 2))), ('get_res0_cells', ()), ('uncompact', ([0], rng.randint(0, 2)))]))
+            else:
+                c = random_valid_id(rng, 1, 28)
+                calls.append(('cell_to_children', (c,)))
         elif k == 9:
             c = random_valid_id(rng, 2, 20)
             calls.append(('compact', (sorted([c + 0] + [random_valid_id(rng, 2, 6) for _ in range(5)]),)))
